@@ -97,8 +97,8 @@ pub fn behaviour() -> Behaviour {
         cfg,
         adjust: no_adjust,
         render,
-        quick: 400,
-        thorough: 8000,
+        quick: 1500,
+        thorough: 20000,
         batch: 25,
         assumptions: &["m_into_* methods add a target-specific offset so that method identity is observable"],
     }
